@@ -2698,6 +2698,7 @@ func (self *TextServerProtocol) commandHandlerLock(_ *TextServerProtocol, args [
 			}
 			self.glock.Unlock()
 		}
+		lockCommand.CommandType = protocol.COMMAND_LOCK
 		_ = self.willCommands.Push(lockCommand)
 		return self.stream.WriteBytes(self.parser.BuildResponse(true, "OK", nil))
 	}
@@ -2743,6 +2744,7 @@ func (self *TextServerProtocol) commandHandlerUnlock(_ *TextServerProtocol, args
 			}
 			self.glock.Unlock()
 		}
+		lockCommand.CommandType = protocol.COMMAND_UNLOCK
 		_ = self.willCommands.Push(lockCommand)
 		return self.stream.WriteBytes(self.parser.BuildResponse(true, "OK", nil))
 	}
